@@ -59,13 +59,13 @@ impl Property for C07CancelAll {
     type Case = ChanCase;
     fn part(&self) -> &'static str { "cancel-all-sched" }
     fn strategy(&self, _tier: Tier) -> BoxedStrategy<ChanCase> {
-        case_strategy(Gen { kinds: &ALL_KINDS, max_streams: &[1, 2, 4, 8, 16], buffers: &[2, 4, 8, 16, 64], max_producers: 2, max_ops: 3, max_consumers: 3, retry: false, fresh_wakers: true, prefill: true, canceller: true, drop_on_end: true, ..Default::default() })
+        case_strategy(Gen { kinds: &ALL_KINDS, max_streams: &[1, 2, 4, 8, 16], buffers: &[2, 4, 8, 16, 64], max_producers: 2, max_ops: 3, max_consumers: 3, retry: false, fresh_wakers: true, prefill: true, canceller: true, drop_on_end: true, origins: true, ..Default::default() })
             // (the Arc kinds block the sender -- sleeping -- when a listener's queue is full; a listener dropped during the run can be fed for ever by
             //  senders that raced with its removal [known finding R8]: there the streams are dropped after the run only)
             .prop_map(|mut c| { if c.kind.waits_when_full() { for k in c.consumers.iter_mut() { k.drop_on_end = false; } } c }).boxed()
     }
     fn decode(&self, u: &mut arbitrary::Unstructured<'_>) -> Option<ChanCase> {
-        let mut c = crate::props::uni::decode_chan(u, &Gen { kinds: &ALL_KINDS, max_streams: &[1, 2, 4, 8, 16], buffers: &[2, 4, 8, 16, 64], max_producers: 2, max_ops: 3, max_consumers: 3, retry: false, fresh_wakers: true, prefill: true, canceller: true, drop_on_end: true, ..Default::default() })?;
+        let mut c = crate::props::uni::decode_chan(u, &Gen { kinds: &ALL_KINDS, max_streams: &[1, 2, 4, 8, 16], buffers: &[2, 4, 8, 16, 64], max_producers: 2, max_ops: 3, max_consumers: 3, retry: false, fresh_wakers: true, prefill: true, canceller: true, drop_on_end: true, origins: true, ..Default::default() })?;
         if c.kind.waits_when_full() { for k in c.consumers.iter_mut() { k.drop_on_end = false; } }
         Some(c)
     }
@@ -178,7 +178,7 @@ impl Property for C20Suspended {
     fn strategy(&self, _tier: Tier) -> BoxedStrategy<ChanCase> {
         static KINDS: [ChanKind; 10] = [ChanKind::UniMoveAtomic, ChanKind::UniMoveFullSync, ChanKind::UniMoveCrossbeam, ChanKind::UniZcAtomic, ChanKind::UniZcFullSync,
                                         ChanKind::MultiArcAtomic, ChanKind::MultiArcFullSync, ChanKind::MultiArcCrossbeam, ChanKind::MultiOgreAtomic, ChanKind::MultiOgreFullSync];
-        case_strategy(Gen { kinds: &KINDS, max_streams: &[1, 2], buffers: &[4, 8], max_producers: 3, max_ops: 5, max_consumers: 2, async_ops: true, ..Default::default() })
+        case_strategy(Gen { kinds: &KINDS, max_streams: &[1, 2], buffers: &[4, 8], max_producers: 3, max_ops: 5, max_consumers: 2, async_ops: true, origins: true, ..Default::default() })
             .prop_map(|mut c| {
                 // at least one suspended send in every case
                 if !c.producers.iter().flatten().any(|o| matches!(o, POp::AsyncBegin(_))) { c.producers[0].insert(0, POp::AsyncBegin(2)); }
@@ -286,7 +286,7 @@ impl Property for C17Churn {
     type Case = ChanCase;
     fn part(&self) -> &'static str { "listener-churn-sched" }
     fn strategy(&self, _tier: Tier) -> BoxedStrategy<ChanCase> {
-        case_strategy(Gen { kinds: &MULTI_KINDS, max_streams: &[4], buffers: &[8], max_producers: 1, max_ops: 6, max_consumers: 4, min_consumers: 3, churn: true, ..Default::default() })
+        case_strategy(Gen { kinds: &MULTI_KINDS, max_streams: &[4], buffers: &[8], max_producers: 1, max_ops: 6, max_consumers: 4, min_consumers: 3, churn: true, origins: true, ..Default::default() })
             .prop_map(|mut c| {
                 // 2..3 listeners exist throughout; the others join late or leave early
                 let mut stable = 0;
@@ -302,13 +302,21 @@ impl Property for C17Churn {
             })
             .boxed()
     }
-    fn decode(&self, u: &mut arbitrary::Unstructured<'_>) -> Option<ChanCase> { crate::props::uni::decode_chan(u, &Gen { kinds: &MULTI_KINDS, max_streams: &[4], buffers: &[8], max_producers: 1, max_ops: 6, max_consumers: 4, min_consumers: 3, churn: true, ..Default::default() }) }
+    fn decode(&self, u: &mut arbitrary::Unstructured<'_>) -> Option<ChanCase> { crate::props::uni::decode_chan(u, &Gen { kinds: &MULTI_KINDS, max_streams: &[4], buffers: &[8], max_producers: 1, max_ops: 6, max_consumers: 4, min_consumers: 3, churn: true, origins: true, ..Default::default() }) }
     fn cases(&self, tier: Tier) -> u32 { match tier { Tier::Quick => 6_000, Tier::Thorough => 120_000 } }
     fn run(&self, case: &ChanCase) -> RunReport {
         let run = execute(case, Epilogue { drain: true, capacity_probe: case.kind.is_ogre_arc(), ..Default::default() });
-        // the live-list rebuild overlapped a send
-        let churn_iv: Vec<(u64, u64)> = run.consumers.iter().flat_map(|c| c.created_at.into_iter().chain(c.dropped_at)).filter(|iv| iv.1 > 0).collect();
-        let overlapped = churn_iv.iter().any(|(a, b)| run.sends.iter().any(|s| s.call < *b && *a < s.ret));
+        // the live-list *mutation window* of a listener creation / removal -- from the entry of create_stream_id() / report_stream_dropped() (before the
+        // running count changes) to the end of the list rebuild -- overlapped a send. (Known finding R8 is exactly this overlap; what a removal does
+        // before it reports the stream as dropped, or a creation after the rebuild, is outside the window.)
+        let mut windows: Vec<(u64, u64)> = vec![];
+        for (i, (t0, tid, tag)) in run.marks.iter().enumerate() {
+            if *tag == "sm.create.begin" || *tag == "sm.drop.begin" {
+                let t1 = run.marks[i + 1..].iter().find(|(_, t, g)| t == tid && *g == "sm.sync.done").map(|m| m.0).unwrap_or(u64::MAX);
+                windows.push((*t0, t1));
+            }
+        }
+        let overlapped = windows.iter().any(|(a, b)| run.sends.iter().any(|s| s.call < *b && *a < s.ret));
         let judged = if run.end == EndState::Completed { judge_churn(case, &run).map(|(sig, d)| (format!("{sig}/rebuild-overlapped-send={}", if overlapped { "y" } else { "n" }), d)) } else { None };
         let mut classes = base_classes(case);
         if case.consumers.iter().any(|c| c.create_late) { classes.push("listener-added".into()); }
@@ -319,7 +327,8 @@ impl Property for C17Churn {
     fn rule(&self) -> String {
         "generated: Multi kind (6) x MAX_STREAMS 4, BUFFER_SIZE 8 x 2..3 listeners that exist throughout + 1..2 listeners that are created by their own thread during the run and / or dropped after 1..3 items x one producer sending 1..6 events x schedule (scheduling points between every entry write of the live-list rebuild and every read of the fan-out loop); \
          oracle: stable listeners yield every accepted event exactly once in order; an added listener a gapless suffix (all events whose send started after its creation returned, none whose send had returned before its creation was called); a removed one a gapless prefix; nothing invented; ogre_arc kinds: after everything is consumed and released exactly BUFFER_SIZE further sends are accepted (no payload storage left occupied); \
-         non-trivial: a listener creation / removal overlapped a send".into()
+         known finding R8 applies only where the mutation window of the live-listener list (entry of create_stream_id / report_stream_dropped .. end of the list rebuild, taken from yield-point marks) overlapped a send; \
+         non-trivial: such a mutation window overlapped a send".into()
     }
     fn schedule_mut<'a>(&self, case: &'a mut ChanCase) -> Option<&'a mut Schedule> { Some(&mut case.schedule) }
 }
@@ -388,7 +397,7 @@ impl Property for C05Sched {
     fn strategy(&self, _tier: Tier) -> BoxedStrategy<ChanCase> {
         static KINDS: [ChanKind; 10] = [ChanKind::UniMoveAtomic, ChanKind::UniMoveFullSync, ChanKind::UniMoveCrossbeam, ChanKind::UniZcAtomic, ChanKind::UniZcFullSync,
                                         ChanKind::MultiArcAtomic, ChanKind::MultiArcFullSync, ChanKind::MultiArcCrossbeam, ChanKind::MultiOgreAtomic, ChanKind::MultiOgreFullSync];
-        (case_strategy(Gen { kinds: &KINDS, max_streams: &[1, 2, 4, 8, 16], buffers: &[2, 4, 8, 16, 64], max_producers: 2, max_ops: 4, max_consumers: 3, retry: true, handles: true, prefill: true, fresh_wakers: true, ..Default::default() }),
+        (case_strategy(Gen { kinds: &KINDS, max_streams: &[1, 2, 4, 8, 16], buffers: &[2, 4, 8, 16, 64], max_producers: 2, max_ops: 4, max_consumers: 3, retry: true, handles: true, prefill: true, fresh_wakers: true, origins: true, ..Default::default() }),
          any::<u8>(), proptest::collection::vec(0u8..3, 3))
             .prop_map(|(mut c, mode, limits)| {
                 // a third of the cases tear the channel down with events still buffered
